@@ -715,7 +715,7 @@ class Gen:
 
 def gen_sweep(rng, tier):
     """(a): one-step programs, every operation of the catalogue, operands in every format"""
-    reps = 6 if tier == "quick" else 60
+    reps = 5 if tier == "quick" else 60
     cases = []
     for name in OPS:
         for k in range(reps):
@@ -1017,7 +1017,7 @@ def gen_special(rng, tier):
                     if g.try_step(name, force_p=p, force_args=[0]):
                         add(g)
     # composed programs over special-fill operands
-    n = 45 if tier == "quick" else 500
+    n = 30 if tier == "quick" else 500
     names = [n_ for n_ in OPS if n_ not in SWEEP_ONLY and not OPS[n_]["zero"] and n_ not in ("astype", "round", "clip", "pad", "sort", "take",
                                                                                              "full", "eye", "ones", "zeros", "full_like", "ones_like")]
     for k in range(n):
@@ -1037,7 +1037,7 @@ def gen_special(rng, tier):
 
 def gen_programs(rng, tier):
     """(b): composed programs"""
-    n = 240 if tier == "quick" else 3000
+    n = 200 if tier == "quick" else 3000
     maxd = 4 if tier == "quick" else 8
     names = [n_ for n_ in OPS if n_ not in SWEEP_ONLY]
     weights = [3 if OPS[n_]["second"] in ("matmul", "tensordot", "concat", "stack") or n_ in (
@@ -1371,11 +1371,6 @@ def campaign(build, tier, seed, report, budget=1):
                           "impl": r["results"][si], "numpy": c["refs"][si], "replay_py": render(c, si)})
             continue
         clause = None
-        if st["op"] == "getitem" and code == 1 and r["results"][si].get("k") == "gcxs":
-            kinds = [it[0] for it in st["p"]["idx"]]
-            opnd = r["inputs"][st["args"][0][1]] if st["args"][0][0] == "in" else r["results"][st["args"][0][1]]
-            if "n" in kinds and "i" in kinds and opnd.get("k") == "gcxs" and len(opnd["shape"]) >= 2:
-                clause = "gcxs_getitem_newaxis_with_int_malformed"
         viol.append({"property": "C06", "op": st["op"], "kind": "value", "clause": clause, "code": code,
                      "what": CODE_TEXT.get(code, str(code)), "step": si, "program_depth": len(c["steps"]),
                      "case": {"inputs": c["inputs"], "steps": c["steps"][:si + 1]},
